@@ -1181,6 +1181,13 @@ def check_c02(pid, tier, build, props):
         problems.append("correspondence extract_region = Model/Extract.v broken: %d calls differ, first: %r%s"
                         % (xt_["mismatch_count"], xt_["mismatches"][:1],
                            (" harness: %r" % xt_["harness_errors"][:1]) if xt_["harness_errors"] else ""))
+    from . import cbcalls
+    cbt = cbcalls.tie(tier, common.seed())
+    cb_tie_ok = cbt["mismatch_count"] == 0 and not cbt["harness_errors"] and cbt["agree"] > 0
+    if not cb_tie_ok:
+        problems.append("correspondence insert_block_and_control_blocks = Model/CbHier.v broken: %d calls differ, "
+                        "first: %r%s" % (cbt["mismatch_count"], cbt["mismatches"][:1],
+                                         (" harness: %r" % cbt["harness_errors"][:1]) if cbt["harness_errors"] else ""))
     b5 = None
     if tier == "thorough":
         from . import bounded5
@@ -1190,6 +1197,13 @@ def check_c02(pid, tier, build, props):
     coverage = {
         "bounded_theorem_5_blocks": b5 if b5 is not None else "thorough tier only (676 sharded coqc runs over all 443 400 graphs)",
         "pipeline_model": dict(piperun.summary(pr), holds=tie_ok),
+        "control_blocks_hierarchy_model": dict(cbt, holds=cb_tie_ok,
+                                               role="every call of SCFG.insert_block_and_control_blocks made while the "
+                                                    "pipeline restructures a graph - outermost and nested levels, "
+                                                    "predecessors that are regions or branching synthetic blocks: "
+                                                    "the hierarchy after the call equals CbHier.insert_cb_h of the "
+                                                    "hierarchy before it, block for block, children in dictionary "
+                                                    "order"),
         "extract_region_model": dict(xt_, holds=extract_tie_ok,
                                      role="every call of transformations.extract_region made while the pipeline "
                                           "restructures a graph (all levels of the hierarchy): the hierarchy after "
